@@ -21,6 +21,16 @@ type GCase struct {
 	MemoExpr map[int]bool
 }
 
+// Before: lengths of the files that precede the parsed file in its file set (a function of the case:
+// a third of the cases are parsed as a later file of a set, the library must not care)
+func (c GCase) Before() []int {
+	h := run.Hash(c.G.String() + "|" + c.In)
+	if h%3 != 0 {
+		return nil
+	}
+	return []int{int(h>>8) % 19, int(h>>16) % 7}[:1+int(h>>24)%2]
+}
+
 func (c GCase) memoIDs() []int {
 	var ids []int
 	for id := range c.MemoExpr {
